@@ -69,6 +69,11 @@ def rand_desc(rng, with_backing=None, cbs=None, allow_v2=True, nclusters=None, c
             clusters[gc] = rng.choice([('zero',), ('zero_prealloc',)])
         else:
             clusters[gc] = ('data', cluster_bytes(rng, cs, 'pattern'))
+    if version == 3 and not sparse and rng.random() < 0.2:
+        # every cluster already has a host cluster (data or preallocated zero): writes need no allocation
+        for gc in range(n):
+            if gc not in clusters or clusters[gc][0] in ('zero',):
+                clusters[gc] = ('zero_prealloc',) if rng.random() < 0.7 else ('data', cluster_bytes(rng, cs, 'blocks'))
     backing = with_backing if with_backing is not None else (rng.random() < 0.4)
     exts = []
     if rng.random() < 0.3:
